@@ -89,8 +89,13 @@ def dictSetdefaultAdd (d : Dict Nat (List Field)) (k : Nat) (x : Field) : Dict N
 /-- `d.setdefault(k)` as a statement: an absent key is stored with the value None -/
 def dictSetdefaultNone {β : Type} (d : Dict Nat (Option β)) (k : Nat) : Dict Nat (Option β) :=
   (dictSetdefault d k Option.none).2
-/-- `sorted(d)` of a dict with int keys: its keys in ascending order -/
-def sortedKeys {β : Type} (d : Dict Nat β) : List Nat := (d.map (·.1)).mergeSort (fun a b => decide (a ≤ b))
+/-- insertion into an ascending list -/
+def insertSorted (a : Nat) : List Nat → List Nat
+  | [] => [a]
+  | b :: l => if a ≤ b then a :: b :: l else b :: insertSorted a l
+/-- `sorted(d)` of a dict with int keys: its keys in ascending order (insertion sort; the keys of a dict are
+    pairwise distinct, so every sorting algorithm gives this list) -/
+def sortedKeys {β : Type} (d : Dict Nat β) : List Nat := (d.map (·.1)).foldr insertSorted []
 /-- `d.items()`, in insertion order -/
 abbrev dictItems {κ β : Type} (d : Dict κ β) : List (κ × β) := d
 /-- `[e(x) for x in xs]` / `tuple(e(x) for x in xs)` where `e` may raise -/
